@@ -7,10 +7,10 @@
    Part 4  placement, renaming (both guard-free)
    Part 5  boolean checkers of the guards with soundness; guard_flags
    Part 6  unused_spec_ext: the property read on the source text (for refutation witnesses only)
-   All statements are generic in the key function keyf (today: key_today = identity); nothing in
-   this file depends on what key_today is, so that switching the model to upper-cased keys is the
-   one-line change of key_today in Model/UnusedVar.v (Properties/C15.v then needs its *_refuted /
-   *_today statements revisited, which is intended). *)
+   All statements are generic in the key function keyf (the code since /repo e5fd419: key_today =
+   upper); the exactness theorem needs keyf to identify exactly the case variants (key_ci).
+   History: before e5fd419 / 993bb42 the map was keyed by the spelling and string-literal terminals
+   were counted; the two guards that excluded those classes (G_case, G_lit) are gone. *)
 From Coq Require Import Permutation.
 From GoldV Require Import Base Tokens Lexer AstKinds Tree UnusedVar.
 
@@ -60,6 +60,9 @@ Definition classify (n : node) : ecls :=
 
 Definition cmap := list (str * vinfo).
 
+(* a terminal that can name something: anything but a string literal *)
+Definition name_tok (n : node) : bool := negb (is_string_lit n).
+
 (* one visit as a function of the map: new map, diagnostics pushed *)
 Definition emit (keyf : str -> str) (c : cmap) (e : ev) : cmap * list diag :=
   let p := ev_parent e in
@@ -67,16 +70,17 @@ Definition emit (keyf : str -> str) (c : cmap) (e : ev) : cmap * list diag :=
   match classify n with
   | CMethod => ([], unused_of c)
   | CTerm =>
+      if is_string_lit n then (c, []) else
       let k := keyf (nident n) in
       match alookup k c with
-      | Some v => if is_left_node p n then (ainsert k (mkV (vuses v + 1) (vrange v)) c, []) else (c, [])
+      | Some v => if is_left_node p n then (ainsert k (mkV (vuses v + 1) (vrange v) (vname v)) c, []) else (c, [])
       | None => (c, [])
       end
   | CLvar =>
       let k := keyf (nident n) in
       match alookup k c with
       | Some _ => (c, [mkDiag SEV_ERROR CL_DUP (ident_range n) []])
-      | None => (ainsert k (mkV 0 (ident_range n)) c, [])
+      | None => (ainsert k (mkV 0 (ident_range n) (nident n)) c, [])
       end
   | COther => (c, [])
   end.
@@ -100,6 +104,7 @@ Proof.
     repeat match goal with
     | |- context [match alookup ?k ?c with _ => _ end] => destruct (alookup k c)
     | |- context [if is_left_node ?p ?n then _ else _] => destruct (is_left_node p n)
+    | |- context [if is_string_lit ?n then _ else _] => destruct (is_string_lit n)
     end; cbn [fst snd]; rewrite ?app_nil_r; reflexivity.
 Qed.
 
@@ -265,7 +270,7 @@ Definition quiet_ev (e : ev) : Prop := e_method e = false /\ e_lvar e = false.
 (* a visit that leaves a map with the given keys unchanged *)
 Definition inert_ev (keyf : str -> str) (keys : list str) (e : ev) : Prop :=
   e_method e = false /\ e_lvar e = false /\
-  (e_term e = true -> In (keyf (nident (ev_node e))) keys ->
+  (e_term e = true -> is_string_lit (ev_node e) = false -> In (keyf (nident (ev_node e))) keys ->
    is_left_node (ev_parent e) (ev_node e) = false).
 
 Lemma inert_ev_incl keyf keys keys' e :
@@ -273,15 +278,16 @@ Lemma inert_ev_incl keyf keys keys' e :
 Proof. intros Hi (H1 & H2 & H3). repeat split; auto. Qed.
 
 Lemma quiet_inert keyf e : quiet_ev e -> inert_ev keyf [] e.
-Proof. intros (H1 & H2). repeat split; auto. intros _ []. Qed.
+Proof. intros (H1 & H2). repeat split; auto. intros _ _ []. Qed.
 
 Lemma emit_inert keyf c e : inert_ev keyf (map fst c) e -> emit keyf c e = (c, []).
 Proof.
   intros (Hm & Hl & Ht). unfold emit. unfold e_method, e_lvar, e_term in *.
   pose proof (classify_spec (ev_node e)) as Hc. destruct (classify (ev_node e)).
   - congruence.
-  - destruct Hc as [_ Hc]. destruct (alookup _ c) eqn:E; [|reflexivity].
-    rewrite (Ht Hc (alookup_some_in _ _ _ E)). reflexivity.
+  - destruct Hc as [_ Hc]. destruct (is_string_lit (ev_node e)) eqn:Es; [reflexivity|].
+    destruct (alookup _ c) eqn:E; [|reflexivity].
+    rewrite (Ht Hc eq_refl (alookup_some_in _ _ _ E)). reflexivity.
   - destruct Hc as (_ & _ & Hc). congruence.
   - reflexivity.
 Qed.
@@ -297,7 +303,7 @@ Lemma emit_keys keyf c e k :
 Proof.
   unfold emit, e_lvar. pose proof (classify_spec (ev_node e)) as Hc. destruct (classify (ev_node e)); cbn [fst map In].
   - tauto.
-  - destruct (alookup _ c) eqn:E; cbn [fst]; [|tauto].
+  - destruct (is_string_lit _); cbn [fst]; [tauto|]. destruct (alookup _ c) eqn:E; cbn [fst]; [|tauto].
     destruct (is_left_node _ _); cbn [fst]; [|tauto]. rewrite (ainsert_keys_present _ _ _ _ E). tauto.
   - destruct Hc as (_ & _ & Hc). destruct (alookup _ c) eqn:E; cbn [fst]; [tauto|].
     rewrite (ainsert_absent _ _ _ E), map_app, in_app_iff. cbn [map fst In]. intros [H|[H|[]]]; [tauto|]. right. split; [exact Hc|congruence].
@@ -359,7 +365,8 @@ Qed.
 (* WFtop: what must hold OUTSIDE the methods for the report to be per-method:
    (a) the declarations before the first method contain no method node and no local declaration;
    (b) the non-method declarations that follow a method m contain no method node, no local
-       declaration, and no terminal that the analyser would count as a use of a local of m. *)
+       declaration, and no terminal (other than a string literal) that the analyser would count as
+       a use of a local of m. *)
 Definition WFtop (keyf : str -> str) (file : node) : Prop :=
   Forall (fun t => Forall quiet_ev (walk file t)) (fst (split_methods (nchildren file))) /\
   Forall (trailing_inert keyf file) (snd (split_methods (nchildren file))).
@@ -398,14 +405,14 @@ Qed.
 
 (* the visit e is counted as a use of the variable stored under key k *)
 Definition is_use (keyf : str -> str) (k : str) (e : ev) : bool :=
-  e_term e && str_eqb (keyf (nident (ev_node e))) k && is_left_node (ev_parent e) (ev_node e).
+  e_term e && name_tok (ev_node e) && str_eqb (keyf (nident (ev_node e))) k && is_left_node (ev_parent e) (ev_node e).
 
 Definition touched (keyf : str -> str) (k : str) (l : list ev) : bool := existsb (is_use keyf k) l.
 
 Definition warn_of (k : str) (r : range) : diag := mkDiag SEV_WARNING CL_UNUSED r k.
 
 Definition survivor (keyf : str -> str) (l : list ev) (kv : str * vinfo) : list diag :=
-  if (vuses (snd kv) =? 0) && negb (touched keyf (fst kv) l) then [warn_of (fst kv) (vrange (snd kv))] else [].
+  if (vuses (snd kv) =? 0) && negb (touched keyf (fst kv) l) then [warn_of (vname (snd kv)) (vrange (snd kv))] else [].
 
 (* entries already in the map: still unused at the end iff unused so far and not used in l *)
 Definition survivors (keyf : str -> str) (c : cmap) (l : list ev) : list diag := flat_map (survivor keyf l) c.
@@ -421,7 +428,7 @@ Fixpoint fresh_warns (keyf : str -> str) (seen : list str) (l : list ev) : list 
       if e_lvar e then
         let k := keyf (nident (ev_node e)) in
         if mem_str k seen then fresh_warns keyf seen l'
-        else (if touched keyf k l' then [] else [warn_of k (ident_range (ev_node e))])
+        else (if touched keyf k l' then [] else [warn_of (nident (ev_node e)) (ident_range (ev_node e))])
              ++ fresh_warns keyf (seen ++ [k]) l'
       else fresh_warns keyf seen l'
   end.
@@ -477,10 +484,13 @@ Proof.
       destruct Hc as [_ Ht].
       assert (Hl : e_lvar e = false) by (apply (proj1 (proj2 (kinds_exclusive _)) Ht)).
       rewrite (fresh_warns_nolvar _ _ _ _ Hl).
+      destruct (is_string_lit (ev_node e)) eqn:Es.
+      { cbn [fst]. rewrite IH by exact Hnd. f_equal. symmetry. apply survivors_cons_nouse.
+        intros k' _. unfold is_use, name_tok. rewrite Es. cbn [negb]. rewrite andb_false_r. reflexivity. }
       set (k := keyf (nident (ev_node e))).
       destruct (alookup k c) as [v|] eqn:E.
       * destruct (is_left_node (ev_parent e) (ev_node e)) eqn:El; cbn [fst].
-        -- destruct (ainsert_present k (mkV (vuses v + 1) (vrange v)) v c E) as (c1 & c2 & Hc & Hn1 & Hi).
+        -- destruct (ainsert_present k (mkV (vuses v + 1) (vrange v) (vname v)) v c E) as (c1 & c2 & Hc & Hn1 & Hi).
            rewrite Hi. rewrite IH.
            2:{ rewrite <- Hi, (ainsert_keys_present _ _ _ _ E). exact Hnd. }
            assert (Hn2 : ~ In k (map fst c2)).
@@ -490,8 +500,8 @@ Proof.
            { intros c' Hn k' Hk'. unfold is_use. fold k. destruct (str_eqb k k') eqn:Ek; [|rewrite andb_false_r; reflexivity].
              apply str_eqb_eq in Ek. subst k'. contradiction. }
            assert (Hk : is_use keyf k e = true).
-           { unfold is_use. fold k. unfold e_term. rewrite Ht, str_eqb_refl, El. reflexivity. }
-           replace (map fst (c1 ++ (k, mkV (vuses v + 1) (vrange v)) :: c2)) with (map fst c)
+           { unfold is_use, name_tok. fold k. unfold e_term. rewrite Ht, Es, str_eqb_refl, El. reflexivity. }
+           replace (map fst (c1 ++ (k, mkV (vuses v + 1) (vrange v) (vname v)) :: c2)) with (map fst c)
              by (subst c; rewrite !map_app; reflexivity).
            f_equal. subst c. rewrite !survivors_app, !survivors_cons.
            rewrite (survivors_cons_nouse _ c1 e l (Hother c1 Hn1)), (survivors_cons_nouse _ c2 e l (Hother c2 Hn2)).
@@ -516,7 +526,7 @@ Proof.
         rewrite (ainsert_absent _ _ _ E). rewrite IH.
         2:{ rewrite map_app. cbn [map fst]. apply NoDup_snoc; assumption. }
         rewrite survivors_app, Hs, map_app. cbn [map fst]. rewrite <- app_assoc. f_equal. f_equal.
-        rewrite survivors_cons. unfold survivors at 1. cbn [flat_map]. rewrite app_nil_r. unfold survivor. cbn [fst snd vuses vrange].
+        rewrite survivors_cons. unfold survivors at 1. cbn [flat_map]. rewrite app_nil_r. unfold survivor. cbn [fst snd vuses vrange vname].
         cbn [N.eqb andb]. destruct (touched keyf k l); reflexivity.
     + (* anything else *)
       destruct Hc as (_ & Ht & Hl). cbn [fst]. rewrite (fresh_warns_nolvar _ _ _ _ Hl).
@@ -533,7 +543,7 @@ Proof.
   apply Forall_app. split; [|apply IH].
   unfold emit. unfold e_method in Hm. pose proof (classify_spec (ev_node e)) as Hc.
   destruct (classify (ev_node e)); [congruence| | |constructor].
-  - destruct (alookup _ c); [destruct (is_left_node _ _)|]; constructor.
+  - destruct (is_string_lit _); [constructor|]. destruct (alookup _ c); [destruct (is_left_node _ _)|]; constructor.
   - destruct (alookup _ c); cbn [snd]; repeat constructor.
 Qed.
 
@@ -566,7 +576,7 @@ Fixpoint order_warns (keyf : str -> str) (l : list ev) : list diag :=
   | e :: l' =>
       (if e_lvar e
        then if touched keyf (keyf (nident (ev_node e))) l' then []
-            else [warn_of (keyf (nident (ev_node e))) (ident_range (ev_node e))]
+            else [warn_of (nident (ev_node e)) (ident_range (ev_node e))]
        else []) ++ order_warns keyf l'
   end.
 
@@ -662,10 +672,6 @@ Proof.
   - apply Forall_forall. intros c _. apply iwalk_child.
 Qed.
 
-(* a terminal that names something (anything but a string literal: a literal's content is not a name) *)
-Definition name_tok (n : node) : bool :=
-  match attr_tok K_token n with Some t => negb (tt_eqb (tty t) TStringLiteral) | None => true end.
-
 (* "the member name to the right of a dot": a child other than the first of a '.' binary op *)
 Definition right_of_dot (p : node) (i : nat) : bool :=
   is_kind KAstBinaryOp p && op_is_dot p && negb (Nat.eqb i 0).
@@ -683,22 +689,22 @@ Definition mentions (m : node) (x : str) : bool := existsb (is_mention x) (sub_i
 Definition local_decls (m : node) : list node := map ev_node (filter e_lvar (sub_events m)).
 
 (* one warning per unmentioned local, on the declared name *)
-Definition method_spec (keyf : str -> str) (m : node) : list diag :=
-  flat_map (fun d => if mentions m (nident d) then [] else [warn_of (keyf (nident d)) (ident_range d)])
+Definition method_spec (m : node) : list diag :=
+  flat_map (fun d => if mentions m (nident d) then [] else [warn_of (nident d) (ident_range d)])
            (local_decls m).
 
-Definition unused_spec (keyf : str -> str) (file : node) : list diag :=
-  flat_map (method_spec keyf) (methods file).
+Definition unused_spec (file : node) : list diag :=
+  flat_map method_spec (methods file).
 
 (* ---- the per-method guards ---- *)
 
-(* the key function identifies at most names that differ in letter case only *)
-Definition key_ci (keyf : str -> str) : Prop := forall a b, keyf a = keyf b -> upper a = upper b.
+(* the key function identifies exactly the names that differ in letter case only *)
+Definition key_ci (keyf : str -> str) : Prop := forall a b, keyf a = keyf b <-> upper a = upper b.
 
-Lemma key_ci_today : key_ci key_today.
-Proof. intros a b H. unfold key_today in H. congruence. Qed.
 Lemma key_ci_upper : key_ci upper.
-Proof. intros a b H. exact H. Qed.
+Proof. intros a b. tauto. Qed.
+Lemma key_ci_today : key_ci key_today.
+Proof. exact key_ci_upper. Qed.
 
 (* no method node inside a method *)
 Definition G_flat (m : node) : Prop := Forall (fun e => e_method e = false) (sub_events m).
@@ -708,15 +714,6 @@ Definition G_dup (keyf : str -> str) (m : node) : Prop := NoDup (decl_keys keyf 
 Definition G_order (keyf : str -> str) (m : node) : Prop :=
   forall l1 e l2, sub_events m = l1 ++ e :: l2 -> e_lvar e = true ->
   touched keyf (keyf (nident (ev_node e))) l1 = true -> touched keyf (keyf (nident (ev_node e))) l2 = true.
-(* R1: a terminal naming a local in another letter case has the same key as the declaration *)
-Definition G_case (keyf : str -> str) (m : node) : Prop :=
-  forall d t, In d (sub_events m) -> e_lvar d = true -> In t (sub_events m) -> e_term t = true ->
-  ci_eqb (nident (ev_node t)) (nident (ev_node d)) = true -> keyf (nident (ev_node t)) = keyf (nident (ev_node d)).
-(* R2: a terminal counted as a use of a local is not a string literal *)
-Definition G_lit (keyf : str -> str) (m : node) : Prop :=
-  forall d t, In d (sub_events m) -> e_lvar d = true -> In t (sub_events m) -> e_term t = true ->
-  keyf (nident (ev_node t)) = keyf (nident (ev_node d)) ->
-  is_left_node (ev_parent t) (ev_node t) = true -> name_tok (ev_node t) = true.
 (* positions are sane: a later operand of a '.' does not have both the text and the start
    position of the first operand (is_left_node compares "ident:pos" strings) *)
 Definition G_pos (m : node) : Prop :=
@@ -725,10 +722,7 @@ Definition G_pos (m : node) : Prop :=
   hd_error (nchildren p) = Some l -> ident_pos_eqb l t = false.
 
 Definition WFmeth (keyf : str -> str) (m : node) : Prop :=
-  G_flat m /\ G_dup keyf m /\ G_order keyf m /\ G_case keyf m /\ G_lit keyf m /\ G_pos m.
-
-Lemma G_case_upper m : G_case upper m.
-Proof. intros d t _ _ _ _ H. apply str_eqb_eq. exact H. Qed.
+  G_flat m /\ G_dup keyf m /\ G_order keyf m /\ G_pos m.
 
 Lemma pos_eqb_refl a : pos_eqb a a = true.
 Proof. unfold pos_eqb. rewrite !N.eqb_refl. reflexivity. Qed.
@@ -764,30 +758,26 @@ Lemma sub_erase m : map erase (sub_ievents m) = sub_events m.
 Proof. apply iwalk_list_erase'. Qed.
 
 (* for a declared local d: "mentioned somewhere in the method" = "counted as used somewhere" *)
-Lemma mentions_touched keyf m d :
-  key_ci keyf -> G_case keyf m -> G_lit keyf m -> G_pos m ->
-  In d (sub_events m) -> e_lvar d = true ->
-  mentions m (nident (ev_node d)) = touched keyf (keyf (nident (ev_node d))) (sub_events m).
+Lemma mentions_touched keyf m x :
+  key_ci keyf -> G_pos m ->
+  mentions m x = touched keyf (keyf x) (sub_events m).
 Proof.
-  intros Hk Hc Hl Hp Hd Hdl. unfold mentions, touched. rewrite <- sub_erase, existsb_map.
+  intros Hk Hp. unfold mentions, touched. rewrite <- sub_erase, existsb_map.
   apply existsb_ext_in. intros [[p i] t] Hin. unfold is_mention, is_use, e_term, erase. cbn [fst snd ev_node ev_parent].
   destruct (is_term t) eqn:Ht; [|reflexivity]. cbn [andb].
   rewrite <- (is_left_right m p i t Hp Hin Ht).
-  assert (Hin' : In (p, t) (sub_events m)).
-  { rewrite <- sub_erase. change (p, t) with (erase (p, i, t)). apply in_map. exact Hin. }
-  destruct (str_eqb (keyf (nident t)) (keyf (nident (ev_node d)))) eqn:Ek.
-  - apply str_eqb_eq in Ek. pose proof (Hk _ _ Ek) as Eu. unfold ci_eqb. rewrite Eu, str_eqb_refl, andb_true_r.
-    destruct (is_left_node p t) eqn:El; [|rewrite andb_false_r; reflexivity].
-    pose proof (Hl d (p, t) Hd Hdl Hin' Ht Ek El) as Hn. cbn [ev_node snd] in Hn. rewrite Hn. reflexivity.
-  - destruct (ci_eqb (nident t) (nident (ev_node d))) eqn:Ec; [|rewrite andb_false_r; reflexivity].
-    pose proof (Hc d (p, t) Hd Hdl Hin' Ht Ec) as Hn. cbn [ev_node snd] in Hn. rewrite Hn, str_eqb_refl in Ek. discriminate.
+  replace (str_eqb (keyf (nident t)) (keyf x)) with (ci_eqb (nident t) x).
+  - destruct (name_tok t), (is_left_node p t), (ci_eqb (nident t) x); reflexivity.
+  - unfold ci_eqb. destruct (str_eqb (upper (nident t)) (upper x)) eqn:E.
+    + apply str_eqb_eq in E. apply Hk in E. rewrite E. symmetry. apply str_eqb_refl.
+    + symmetry. apply str_eqb_neq. intro H. apply Hk in H. rewrite H, str_eqb_refl in E. discriminate.
 Qed.
 
 Lemma order_spec_gen keyf (ment : node -> bool) B : forall l1 l2, B = l1 ++ l2 ->
   (forall l1 e l2, B = l1 ++ e :: l2 -> e_lvar e = true ->
                    touched keyf (keyf (nident (ev_node e))) l2 = ment (ev_node e)) ->
   order_warns keyf l2 =
-  flat_map (fun d => if ment d then [] else [warn_of (keyf (nident d)) (ident_range d)])
+  flat_map (fun d => if ment d then [] else [warn_of (nident d) (ident_range d)])
            (map ev_node (filter e_lvar l2)).
 Proof.
   intros l1 l2. revert l1. induction l2 as [|e l2 IH]; intros l1 HB H; [reflexivity|].
@@ -800,15 +790,14 @@ Qed.
 (* one method, analysed alone: its warnings are exactly the specified ones *)
 Theorem method_exact keyf m :
   key_ci keyf -> WFmeth keyf m ->
-  filter is_unused_diag (method_report keyf m) = method_spec keyf m.
+  filter is_unused_diag (method_report keyf m) = method_spec m.
 Proof.
-  intros Hk (Hf & Hd & Ho & Hc & Hl & Hp). unfold method_report. fold (sub_events m).
+  intros Hk (Hf & Hd & Ho & Hp). unfold method_report. fold (sub_events m).
   rewrite (unused_of_stretch keyf _ Hf). rewrite (fresh_order keyf _ []) by exact Hd.
   unfold method_spec, local_decls.
   apply (order_spec_gen keyf (fun d => mentions m (nident d)) (sub_events m) []); [reflexivity|].
   intros l1 e l2 HB El.
-  assert (Hin : In e (sub_events m)) by (rewrite HB; apply in_or_app; right; left; reflexivity).
-  rewrite (mentions_touched keyf m e Hk Hc Hl Hp Hin El). rewrite HB. unfold touched.
+  rewrite (mentions_touched keyf m _ Hk Hp). rewrite HB. unfold touched.
   rewrite existsb_app. cbn [existsb]. fold (touched keyf (keyf (nident (ev_node e))) l1).
   fold (touched keyf (keyf (nident (ev_node e))) l2).
   rewrite (is_use_nonterm keyf _ e) by (apply (proj2 (proj2 (kinds_exclusive _)) El)). cbn [orb].
@@ -831,46 +820,48 @@ Proof.
 Qed.
 
 Theorem unused_exact_eq keyf file :
-  key_ci keyf -> WFm keyf file -> unused_vars keyf file = unused_spec keyf file.
+  key_ci keyf -> WFm keyf file -> unused_vars keyf file = unused_spec file.
 Proof.
   intros Hk [Ht Hm]. unfold unused_vars, unused_spec. rewrite (report_decomposes _ _ Ht), filter_flat_map.
   apply flat_map_ext_in'. intros m Hin. apply method_exact; [exact Hk|apply Hm; exact Hin].
 Qed.
 
 Theorem unused_exact keyf file :
-  key_ci keyf -> WFm keyf file -> Permutation (unused_vars keyf file) (unused_spec keyf file).
+  key_ci keyf -> WFm keyf file -> Permutation (unused_vars keyf file) (unused_spec file).
 Proof. intros Hk H. rewrite (unused_exact_eq _ _ Hk H). apply Permutation_refl. Qed.
 
 (* ------------------------------------------------------------------------------------------ *)
 (* Part 4a: placement (guard-free): every diagnostic sits on the name token of a local        *)
-(*          declaration of the file, and an "Unused var" warning prints that declaration's key *)
+(*          declaration of the file, and an "Unused var" warning prints the declared spelling   *)
 (* ------------------------------------------------------------------------------------------ *)
 
-Definition diag_from (keyf : str -> str) (P : ev -> Prop) (d : diag) : Prop :=
+Definition diag_from (P : ev -> Prop) (d : diag) : Prop :=
   exists e, P e /\ e_lvar e = true /\ drange d = ident_range (ev_node e) /\
-            (is_unused_diag d = true -> dkey d = keyf (nident (ev_node e)) /\ dsev d = SEV_WARNING) /\
+            (is_unused_diag d = true -> dkey d = nident (ev_node e) /\ dsev d = SEV_WARNING) /\
             (is_unused_diag d = false -> dsev d = SEV_ERROR).
 
 Definition entry_from (keyf : str -> str) (P : ev -> Prop) (kv : str * vinfo) : Prop :=
-  exists e, P e /\ e_lvar e = true /\ fst kv = keyf (nident (ev_node e)) /\ vrange (snd kv) = ident_range (ev_node e).
+  exists e, P e /\ e_lvar e = true /\ fst kv = keyf (nident (ev_node e)) /\
+            vrange (snd kv) = ident_range (ev_node e) /\ vname (snd kv) = nident (ev_node e).
 
-Lemma unused_of_from keyf (P : ev -> Prop) c : Forall (entry_from keyf P) c -> Forall (diag_from keyf P) (unused_of c).
+Lemma unused_of_from keyf (P : ev -> Prop) c : Forall (entry_from keyf P) c -> Forall (diag_from P) (unused_of c).
 Proof.
-  induction 1 as [|kv c (e & He & Hl & Hk & Hr) _ IH]; [constructor|]. unfold unused_of. cbn [flat_map].
+  induction 1 as [|kv c (e & He & Hl & Hk & Hr & Hn) _ IH]; [constructor|]. unfold unused_of. cbn [flat_map].
   apply Forall_app. split; [|exact IH]. destruct (vuses (snd kv) =? 0); [|constructor].
   constructor; [|constructor]. exists e. repeat split; try assumption; cbn; try discriminate.
 Qed.
 
 Lemma emit_from keyf (P : ev -> Prop) c e :
   P e -> Forall (entry_from keyf P) c ->
-  Forall (entry_from keyf P) (fst (emit keyf c e)) /\ Forall (diag_from keyf P) (snd (emit keyf c e)).
+  Forall (entry_from keyf P) (fst (emit keyf c e)) /\ Forall (diag_from P) (snd (emit keyf c e)).
 Proof.
   intros He Hc. unfold emit. pose proof (classify_spec (ev_node e)) as Hcl. destruct (classify (ev_node e)); cbn [fst snd].
-  - split; [constructor|apply unused_of_from; exact Hc].
-  - destruct (alookup _ c) as [v|] eqn:E; [|split; [exact Hc|constructor]].
+  - split; [constructor|eapply unused_of_from; exact Hc].
+  - destruct (is_string_lit _); [split; [exact Hc|constructor]|].
+    destruct (alookup _ c) as [v|] eqn:E; [|split; [exact Hc|constructor]].
     destruct (is_left_node _ _); cbn [fst snd]; [|split; [exact Hc|constructor]]. split; [|constructor].
-    destruct (ainsert_present _ (mkV (vuses v + 1) (vrange v)) v c E) as (c1 & c2 & -> & _ & ->).
-    apply Forall_app in Hc. destruct Hc as [H1 H2]. inversion H2 as [|? ? (e' & Hp & Hl & Hk & Hr) H3]; subst.
+    destruct (ainsert_present _ (mkV (vuses v + 1) (vrange v) (vname v)) v c E) as (c1 & c2 & -> & _ & ->).
+    apply Forall_app in Hc. destruct Hc as [H1 H2]. inversion H2 as [|? ? (e' & Hp & Hl & Hk & Hr & Hn) H3]; subst.
     apply Forall_app. split; [exact H1|]. constructor; [|exact H3]. exists e'. repeat split; assumption.
   - destruct Hcl as (_ & _ & Hl). destruct (alookup _ c) as [v|] eqn:E; cbn [fst snd].
     + split; [exact Hc|]. constructor; [|constructor]. exists e. repeat split; try assumption; cbn; discriminate.
@@ -881,7 +872,7 @@ Qed.
 
 Lemma emits_from keyf (P : ev -> Prop) l : forall c,
   (forall e, In e l -> P e) -> Forall (entry_from keyf P) c ->
-  Forall (entry_from keyf P) (fst (emits keyf c l)) /\ Forall (diag_from keyf P) (snd (emits keyf c l)).
+  Forall (entry_from keyf P) (fst (emits keyf c l)) /\ Forall (diag_from P) (snd (emits keyf c l)).
 Proof.
   induction l as [|e l IH]; intros c HP Hc; cbn [emits fst snd]; [split; [exact Hc|constructor]|].
   destruct (emit_from keyf P c e (HP e (or_introl eq_refl)) Hc) as [H1 H2].
@@ -890,11 +881,11 @@ Proof.
 Qed.
 
 Theorem placement keyf file :
-  Forall (diag_from keyf (fun e => In e (events file))) (analyze keyf file).
+  Forall (diag_from (fun e => In e (events file))) (analyze keyf file).
 Proof.
   rewrite analyze_out. unfold out.
   destruct (emits_from keyf (fun e => In e (events file)) (events file) [] (fun e H => H) (Forall_nil _)) as [H1 H2].
-  apply Forall_app. split; [exact H2|]. apply unused_of_from. exact H1.
+  apply Forall_app. split; [exact H2|]. eapply unused_of_from. exact H1.
 Qed.
 
 (* ------------------------------------------------------------------------------------------ *)
@@ -907,10 +898,12 @@ Fixpoint map_idents (f : str -> str) (n : node) : node :=
 
 Definition emap (f : str -> str) (e : ev) : ev := (map_idents f (fst e), map_idents f (snd e)).
 
-Definition dmap (g : str -> str) (d : diag) : diag :=
-  mkDiag (dsev d) (dclass d) (drange d) (if is_unused_diag d then g (dkey d) else dkey d).
+Definition dmap (f : str -> str) (d : diag) : diag :=
+  mkDiag (dsev d) (dclass d) (drange d) (if is_unused_diag d then f (dkey d) else dkey d).
 
-Definition cren (g : str -> str) (c : cmap) : cmap := map (fun kv => (g (fst kv), snd kv)) c.
+(* keys through g, recorded names through f *)
+Definition cren (f g : str -> str) (c : cmap) : cmap :=
+  map (fun kv => (g (fst kv), mkV (vuses (snd kv)) (vrange (snd kv)) (f (vname (snd kv))))) c.
 
 Definition injective (f : str -> str) : Prop := forall a b, f a = f b -> a = b.
 
@@ -928,6 +921,9 @@ Proof. unfold classify, is_method, is_term, is_lvar. rewrite !mi_is_kind. reflex
 
 Lemma mi_ident_range f n : ident_range (map_idents f n) = ident_range n.
 Proof. unfold ident_range, attr_tok. rewrite mi_attrs, mi_range. reflexivity. Qed.
+
+Lemma mi_is_string_lit f n : is_string_lit (map_idents f n) = is_string_lit n.
+Proof. unfold is_string_lit, attr_tok. rewrite mi_attrs. reflexivity. Qed.
 
 Lemma mi_op_is_dot f n : op_is_dot (map_idents f n) = op_is_dot n.
 Proof. unfold op_is_dot, attr_tok. rewrite mi_attrs. reflexivity. Qed.
@@ -967,104 +963,78 @@ Proof.
   unfold events. rewrite mi_children. apply mi_walk_list. apply Forall_forall. intros n _. apply mi_walk.
 Qed.
 
-Lemma cren_alookup g k c : injective g -> alookup (g k) (cren g c) = alookup k c.
+Definition vren (f : str -> str) (v : vinfo) : vinfo := mkV (vuses v) (vrange v) (f (vname v)).
+
+Lemma cren_alookup f g k c : injective g -> alookup (g k) (cren f g c) = option_map (vren f) (alookup k c).
 Proof.
   intro Hg. induction c as [|[k' v] c IH]; [reflexivity|]. cbn [cren map alookup fst snd].
   rewrite (str_eqb_inj _ _ _ Hg). destruct (str_eqb k k'); [reflexivity|exact IH].
 Qed.
 
-Lemma cren_ainsert g k v c : injective g -> ainsert (g k) v (cren g c) = cren g (ainsert k v c).
+Lemma cren_ainsert f g k v c : injective g -> ainsert (g k) (vren f v) (cren f g c) = cren f g (ainsert k v c).
 Proof.
   intro Hg. induction c as [|[k' v'] c IH]; [reflexivity|]. cbn [cren map ainsert fst snd].
   rewrite (str_eqb_inj _ _ _ Hg). destruct (str_eqb k k'); [reflexivity|]. cbn [map fst snd].
   f_equal. exact IH.
 Qed.
 
-Lemma cren_unused_of g c : unused_of (cren g c) = map (dmap g) (unused_of c).
+Lemma cren_unused_of f g c : unused_of (cren f g c) = map (dmap f) (unused_of c).
 Proof.
-  unfold unused_of. induction c as [|kv c IH]; [reflexivity|]. cbn [cren map flat_map fst snd].
+  unfold unused_of. induction c as [|kv c IH]; [reflexivity|]. cbn [cren map flat_map fst snd vuses].
   rewrite map_app. f_equal; [|exact IH]. destruct (vuses (snd kv) =? 0); reflexivity.
 Qed.
 
 Lemma emit_rename keyf f g c e :
   injective f -> injective g -> (forall s, keyf (f s) = g (keyf s)) ->
-  emit keyf (cren g c) (emap f e) = (cren g (fst (emit keyf c e)), map (dmap g) (snd (emit keyf c e))).
+  emit keyf (cren f g c) (emap f e) = (cren f g (fst (emit keyf c e)), map (dmap f) (snd (emit keyf c e))).
 Proof.
   intros Hf Hg Hfg. destruct e as [p n]. unfold emit, emap, ev_node, ev_parent. cbn [fst snd].
   rewrite mi_classify. destruct (classify n).
   - cbn [fst snd cren map]. rewrite cren_unused_of. reflexivity.
-  - rewrite mi_ident, Hfg, (cren_alookup _ _ _ Hg). destruct (alookup _ c); [|reflexivity].
-    rewrite (mi_is_left _ _ _ Hf). destruct (is_left_node p n); [|reflexivity].
-    cbn [fst snd map]. rewrite (cren_ainsert _ _ _ _ Hg). reflexivity.
-  - rewrite mi_ident, Hfg, (cren_alookup _ _ _ Hg), mi_ident_range. destruct (alookup _ c); [reflexivity|].
-    cbn [fst snd map]. rewrite (cren_ainsert _ _ _ _ Hg). reflexivity.
+  - rewrite mi_is_string_lit. destruct (is_string_lit n); [reflexivity|].
+    rewrite mi_ident, Hfg, (cren_alookup _ _ _ _ Hg). destruct (alookup _ c) as [v|]; [|reflexivity].
+    cbn [option_map]. rewrite (mi_is_left _ _ _ Hf). destruct (is_left_node p n); [|reflexivity].
+    cbn [fst snd map]. rewrite <- (cren_ainsert _ _ _ _ _ Hg). reflexivity.
+  - rewrite mi_ident, Hfg, (cren_alookup _ _ _ _ Hg), mi_ident_range. destruct (alookup _ c); [reflexivity|].
+    cbn [option_map fst snd map]. rewrite <- (cren_ainsert _ _ _ _ _ Hg). reflexivity.
   - reflexivity.
 Qed.
 
 Lemma emits_rename keyf f g l : forall c,
   injective f -> injective g -> (forall s, keyf (f s) = g (keyf s)) ->
-  emits keyf (cren g c) (map (emap f) l) = (cren g (fst (emits keyf c l)), map (dmap g) (snd (emits keyf c l))).
+  emits keyf (cren f g c) (map (emap f) l) = (cren f g (fst (emits keyf c l)), map (dmap f) (snd (emits keyf c l))).
 Proof.
   induction l as [|e l IH]; intros c Hf Hg Hfg; [reflexivity|]. cbn [map emits].
   rewrite (emit_rename keyf f g c e Hf Hg Hfg). cbn [fst snd]. rewrite (IH _ Hf Hg Hfg). cbn [fst snd].
   rewrite map_app. reflexivity.
 Qed.
 
+(* f renames the names, g is what f does to their keys *)
 Theorem rename_equivariant keyf f g file :
   injective f -> injective g -> (forall s, keyf (f s) = g (keyf s)) ->
-  analyze keyf (map_idents f file) = map (dmap g) (analyze keyf file).
+  analyze keyf (map_idents f file) = map (dmap f) (analyze keyf file).
 Proof.
   intros Hf Hg Hfg. rewrite !analyze_out, mi_events. unfold out.
-  change (@nil (str * vinfo)) with (cren g []) at 1 2.
+  change (@nil (str * vinfo)) with (cren f g []) at 1 2.
   rewrite (emits_rename keyf f g _ [] Hf Hg Hfg). cbn [fst snd]. rewrite cren_unused_of, map_app. reflexivity.
 Qed.
 
-(* a -> b (and b -> a, so that the map is injective; when b does not occur this IS "rename a to b") *)
-Definition swap (a b s : str) : str := if str_eqb s a then b else if str_eqb s b then a else s.
+(* an instance for case-insensitive keys: every name gets the prefix c *)
+Definition prefix_name (c : N) (s : str) : str := c :: s.
 
-Lemma swap_involutive a b s : swap a b (swap a b s) = s.
+Lemma prefix_injective c : injective (prefix_name c).
+Proof. intros a b H. inversion H. reflexivity. Qed.
+
+Theorem rename_prefix_upper c file :
+  analyze upper (map_idents (prefix_name c) file) = map (dmap (prefix_name c)) (analyze upper file).
 Proof.
-  unfold swap. destruct (str_eqb s a) eqn:E1.
-  - apply str_eqb_eq in E1. subst s. destruct (str_eqb b a) eqn:E2.
-    + apply str_eqb_eq in E2. exact E2.
-    + rewrite str_eqb_refl. reflexivity.
-  - destruct (str_eqb s b) eqn:E2.
-    + apply str_eqb_eq in E2. subst s. rewrite str_eqb_refl. reflexivity.
-    + rewrite E1, E2. reflexivity.
+  apply (rename_equivariant upper (prefix_name c) (prefix_name (upc c)));
+    [apply prefix_injective|apply prefix_injective|reflexivity].
 Qed.
-
-Lemma swap_injective a b : injective (swap a b).
-Proof. intros x y H. rewrite <- (swap_involutive a b x), H. apply swap_involutive. Qed.
 
 (* the names occurring in a tree *)
 Fixpoint idents (n : node) : list str :=
   match n with Node _ id _ _ _ ch => id :: flat_map idents ch end.
-
-Lemma map_idents_ext f f' n : (forall s, In s (idents n) -> f s = f' s) -> map_idents f n = map_idents f' n.
-Proof.
-  induction n as [k id r rg a ch IH] using node_ind'. intro H. cbn [map_idents].
-  rewrite (H id) by (left; reflexivity). f_equal.
-  apply map_ext_in. intros c Hc. rewrite Forall_forall in IH. apply (IH c Hc).
-  intros s Hs. apply H. right. apply in_flat_map. exists c. split; assumption.
-Qed.
-
-Definition subst_name (a b s : str) : str := if str_eqb s a then b else s.
-
-Lemma rename_fresh a b file : ~ In b (idents file) -> map_idents (subst_name a b) file = map_idents (swap a b) file.
-Proof.
-  intro Hb. apply map_idents_ext. intros s Hs. unfold subst_name, swap. destruct (str_eqb s a); [reflexivity|].
-  destruct (str_eqb s b) eqn:E; [|reflexivity]. apply str_eqb_eq in E. subst s. contradiction.
-Qed.
-
-(* keys = spellings (the code today): renaming a to a name b that does not occur renames the
-   warnings about a and changes nothing else *)
-Theorem rename_identity_keys a b file :
-  ~ In b (idents file) ->
-  analyze (fun s => s) (map_idents (subst_name a b) file) = map (dmap (swap a b)) (analyze (fun s => s) file).
-Proof.
-  intro Hb. rewrite (rename_fresh _ _ _ Hb).
-  apply rename_equivariant; [apply swap_injective|apply swap_injective|reflexivity].
-Qed.
 
 (* ------------------------------------------------------------------------------------------ *)
 (* Part 5: the guards are decidable; boolean checkers with soundness (used for the concrete   *)
@@ -1090,19 +1060,6 @@ Fixpoint order_b (keyf : str -> str) (l1 l2 : list ev) : bool :=
 
 Definition g_order_b (keyf : str -> str) (m : node) : bool := order_b keyf [] (sub_events m).
 
-Definition pairs_b (f : ev -> ev -> bool) (B : list ev) : bool :=
-  forallb (fun d => negb (e_lvar d) || forallb (fun t => negb (e_term t) || f d t) B) B.
-
-Definition case_b (keyf : str -> str) (d t : ev) : bool :=
-  implb (ci_eqb (nident (ev_node t)) (nident (ev_node d)))
-        (str_eqb (keyf (nident (ev_node t))) (keyf (nident (ev_node d)))).
-Definition lit_b (keyf : str -> str) (d t : ev) : bool :=
-  implb (str_eqb (keyf (nident (ev_node t))) (keyf (nident (ev_node d))) && is_left_node (ev_parent t) (ev_node t))
-        (name_tok (ev_node t)).
-
-Definition g_case_b (keyf : str -> str) (m : node) : bool := pairs_b (case_b keyf) (sub_events m).
-Definition g_lit_b (keyf : str -> str) (m : node) : bool := pairs_b (lit_b keyf) (sub_events m).
-
 Definition pos_b (e : iev) : bool :=
   let p := fst (fst e) in let i := snd (fst e) in let t := snd e in
   implb (is_term t && is_kind KAstBinaryOp p && op_is_dot p && negb (Nat.eqb i 0))
@@ -1110,12 +1067,12 @@ Definition pos_b (e : iev) : bool :=
 Definition g_pos_b (m : node) : bool := forallb pos_b (sub_ievents m).
 
 Definition wfmeth_b (keyf : str -> str) (m : node) : bool :=
-  g_flat_b m && g_dup_b keyf m && g_order_b keyf m && g_case_b keyf m && g_lit_b keyf m && g_pos_b m.
+  g_flat_b m && g_dup_b keyf m && g_order_b keyf m && g_pos_b m.
 
 Definition quiet_b (e : ev) : bool := negb (e_method e) && negb (e_lvar e).
 Definition inert_b (keyf : str -> str) (keys : list str) (e : ev) : bool :=
   negb (e_method e) && negb (e_lvar e) &&
-  implb (e_term e && mem_str (keyf (nident (ev_node e))) keys) (negb (is_left_node (ev_parent e) (ev_node e))).
+  implb (e_term e && name_tok (ev_node e) && mem_str (keyf (nident (ev_node e))) keys) (negb (is_left_node (ev_parent e) (ev_node e))).
 
 Definition wftop_b (keyf : str -> str) (file : node) : bool :=
   let r := split_methods (nchildren file) in
@@ -1151,23 +1108,12 @@ Proof.
     + cbn [app] in E. inversion E; subst. apply (IH (l1 ++ [y]) H2 a e b eq_refl El). rewrite <- app_assoc. exact Ht.
 Qed.
 
-Lemma pairs_b_sound (f : ev -> ev -> bool) B : pairs_b f B = true ->
-  forall d t, In d B -> e_lvar d = true -> In t B -> e_term t = true -> f d t = true.
-Proof.
-  intros H d t Hd Hdl Ht Htt. unfold pairs_b in H. rewrite forallb_forall in H. specialize (H d Hd).
-  rewrite Hdl in H. cbn [negb orb] in H. rewrite forallb_forall in H. specialize (H t Ht). rewrite Htt in H. exact H.
-Qed.
-
 Lemma wfmeth_b_sound keyf m : wfmeth_b keyf m = true -> WFmeth keyf m.
 Proof.
-  unfold wfmeth_b. rewrite !andb_true_iff. intros [[[[[H1 H2] H3] H4] H5] H6]. repeat split.
+  unfold wfmeth_b. rewrite !andb_true_iff. intros [[[H1 H2] H3] H6]. repeat split.
   - eapply forallb_Forall; [|exact H1]. intros e. apply negb_true.
   - apply nodup_b_sound. exact H2.
   - intros l1 e l2 E El Ht. apply (order_b_sound keyf _ [] H3 l1 e l2 E El). exact Ht.
-  - intros d t Hd Hdl Ht Htt Hc. pose proof (pairs_b_sound _ _ H4 d t Hd Hdl Ht Htt) as H. unfold case_b in H.
-    rewrite Hc in H. apply str_eqb_eq. exact H.
-  - intros d t Hd Hdl Ht Htt Hk Hl. pose proof (pairs_b_sound _ _ H5 d t Hd Hdl Ht Htt) as H. unfold lit_b in H.
-    rewrite Hk, str_eqb_refl, Hl in H. exact H.
   - intros p i t l Hin Ht Hk Hd Hi Hh. unfold g_pos_b in H6. rewrite forallb_forall in H6. specialize (H6 _ Hin).
     unfold pos_b in H6. cbn [fst snd] in H6. rewrite Ht, Hk, Hd, Hh in H6.
     destruct i; [contradiction|]. cbn in H6. apply negb_true. exact H6.
@@ -1179,7 +1125,7 @@ Proof. unfold quiet_b. rewrite andb_true_iff. intros [H1 H2]. split; apply negb_
 Lemma inert_b_sound keyf keys e : inert_b keyf keys e = true -> inert_ev keyf keys e.
 Proof.
   unfold inert_b. rewrite !andb_true_iff. intros [[H1 H2] H3]. repeat split; try (apply negb_true; assumption).
-  intros Ht Hin. apply mem_str_in in Hin. rewrite Ht, Hin in H3. apply negb_true. exact H3.
+  intros Ht Hs Hin. apply mem_str_in in Hin. unfold name_tok in H3. rewrite Ht, Hs, Hin in H3. apply negb_true. exact H3.
 Qed.
 
 Lemma wftop_b_sound keyf file : wftop_b keyf file = true -> WFtop keyf file.
@@ -1196,56 +1142,20 @@ Proof.
   intros m Hm. apply wfmeth_b_sound. rewrite forallb_forall in H2. apply H2. exact Hm.
 Qed.
 
-(* the report as the analyser pushes it, for the engines *)
-Definition spec_today (file : node) : list diag := unused_spec key_today file.
-
-(* ---- the same guards without the letter-case guard: enough once the keys are upper-cased ---- *)
-Definition WFmeth_nc (keyf : str -> str) (m : node) : Prop :=
-  G_flat m /\ G_dup keyf m /\ G_order keyf m /\ G_lit keyf m /\ G_pos m.
-Definition WFm_nc (keyf : str -> str) (file : node) : Prop :=
-  WFtop keyf file /\ forall m, In m (methods file) -> WFmeth_nc keyf m.
-
-Theorem unused_exact_upper file :
-  WFm_nc upper file -> Permutation (unused_vars upper file) (unused_spec upper file).
-Proof.
-  intros [Ht Hm]. apply unused_exact; [exact key_ci_upper|]. split; [exact Ht|].
-  intros m Hin. destruct (Hm m Hin) as (H1 & H2 & H3 & H4 & H5).
-  repeat split; try assumption. apply G_case_upper.
-Qed.
-
-(* which guards the checkers accept: [WFtop; G_flat; G_dup; G_order; G_case; G_lit; G_pos] *)
+(* which guards the checkers accept: [WFtop; G_flat; G_dup; G_order; G_pos] *)
 Definition guard_flags (keyf : str -> str) (file : node) : list bool :=
   [ wftop_b keyf file;
     forallb g_flat_b (methods file);
     forallb (g_dup_b keyf) (methods file);
     forallb (g_order_b keyf) (methods file);
-    forallb (g_case_b keyf) (methods file);
-    forallb (g_lit_b keyf) (methods file);
     forallb g_pos_b (methods file) ].
 
-Lemma guard_flags_all keyf file : guard_flags keyf file = [true; true; true; true; true; true; true] -> WFm keyf file.
+Lemma guard_flags_all keyf file : guard_flags keyf file = [true; true; true; true; true] -> WFm keyf file.
 Proof.
-  unfold guard_flags. intro H. injection H as H0 H1 H2 H3 H4 H5 H6. apply wfm_b_sound. unfold wfm_b. rewrite H0. cbn [andb].
+  unfold guard_flags. intro H. injection H as H0 H1 H2 H3 H6. apply wfm_b_sound. unfold wfm_b. rewrite H0. cbn [andb].
   apply forallb_forall. intros m Hm. unfold wfmeth_b.
-  rewrite forallb_forall in H1, H2, H3, H4, H5, H6.
-  rewrite (H1 m Hm), (H2 m Hm), (H3 m Hm), (H4 m Hm), (H5 m Hm), (H6 m Hm). reflexivity.
-Qed.
-
-Lemma guard_flags_nc keyf file b : guard_flags keyf file = [true; true; true; true; b; true; true] -> WFm_nc keyf file.
-Proof.
-  unfold guard_flags. intro H. injection H as H0 H1 H2 H3 H4 H5 H6. split; [apply wftop_b_sound; exact H0|].
-  intros m Hm. rewrite forallb_forall in H1, H2, H3, H5, H6.
-  assert (Hw : wfmeth_b keyf m = g_case_b keyf m).
-  { unfold wfmeth_b. rewrite (H1 m Hm), (H2 m Hm), (H3 m Hm), (H5 m Hm), (H6 m Hm). cbn [andb]. rewrite !andb_true_r. reflexivity. }
-  repeat split.
-  - eapply forallb_Forall; [|exact (H1 m Hm)]. intros e. apply negb_true.
-  - apply nodup_b_sound. exact (H2 m Hm).
-  - intros l1 e l2 E El Ht. apply (order_b_sound keyf _ [] (H3 m Hm) l1 e l2 E El). exact Ht.
-  - intros d t Hd Hdl Ht Htt Hk Hl. pose proof (pairs_b_sound _ _ (H5 m Hm) d t Hd Hdl Ht Htt) as Hx. unfold lit_b in Hx.
-    rewrite Hk, str_eqb_refl, Hl in Hx. exact Hx.
-  - intros p i t l Hin Ht Hk Hd Hi Hh. pose proof (H6 m Hm) as Hx. unfold g_pos_b in Hx. rewrite forallb_forall in Hx. specialize (Hx _ Hin).
-    unfold pos_b in Hx. cbn [fst snd] in Hx. rewrite Ht, Hk, Hd, Hh in Hx.
-    destruct i; [contradiction|]. cbn in Hx. apply negb_true. exact Hx.
+  rewrite forallb_forall in H1, H2, H3, H6.
+  rewrite (H1 m Hm), (H2 m Hm), (H3 m Hm), (H6 m Hm). reflexivity.
 Qed.
 
 (* ------------------------------------------------------------------------------------------ *)
@@ -1282,7 +1192,7 @@ Definition is_mention_ext (x : str) (e : bool * node) : bool :=
 Definition mentions_ext (m : node) (x : str) : bool :=
   existsb (is_mention_ext x) (flat_map (mwalk false) (nchildren m)).
 
-Definition unused_spec_ext (keyf : str -> str) (file : node) : list diag :=
+Definition unused_spec_ext (file : node) : list diag :=
   flat_map (fun m => flat_map (fun d => if mentions_ext m (nident d) then []
-                                         else [warn_of (keyf (nident d)) (ident_range d)]) (local_decls m))
+                                         else [warn_of (nident d) (ident_range d)]) (local_decls m))
            (methods file).
